@@ -96,6 +96,7 @@ type SessionOpts struct {
 	GOP         int // an IDR every GOP video units (counted from FirstIDR)
 	FirstIDR    int // index of the first IDR video unit (units before it are non-IDR and must be dropped by the recorder)
 	AudioCount  int
+	AudioRate   int           // sample rate = clock rate = fMP4 time scale of the audio track (0 = 44100)
 	AudioLead   time.Duration // audio starts this much before (positive) the first video unit
 	AudioSkew   time.Duration // audio timestamps (PTS and absolute time) are this much ahead of the arrival order (A/V skew)
 	VideoSize   int
@@ -107,13 +108,17 @@ type SessionOpts struct {
 func (b *Builder) Build(o SessionOpts) Session {
 	var s Session
 	vi, ai := -1, -1
+	arate := int64(o.AudioRate)
+	if arate == 0 {
+		arate = 44100
+	}
 	if o.Video {
 		vi = len(s.Tracks)
 		s.Tracks = append(s.Tracks, TrackSpec{Kind: KindH264, ClockRate: 90000})
 	}
 	if o.Audio {
 		ai = len(s.Tracks)
-		s.Tracks = append(s.Tracks, TrackSpec{Kind: KindAAC, ClockRate: 44100})
+		s.Tracks = append(s.Tracks, TrackSpec{Kind: KindAAC, ClockRate: int(arate)})
 	}
 	type ev struct {
 		t time.Duration
@@ -128,12 +133,12 @@ func (b *Builder) Build(o SessionOpts) Session {
 		}
 	}
 	if o.Audio {
-		first := (int64(o.PTS0-o.AudioLead) * 44100) / int64(time.Second)
+		first := (int64(o.PTS0-o.AudioLead) * arate) / int64(time.Second)
 		for i := 0; i < o.AudioCount; i++ {
 			pts := first + int64(i)*1024
-			t := time.Duration(pts * int64(time.Second) / 44100)
+			t := time.Duration(pts * int64(time.Second) / arate)
 			// a skewed track arrives where it would without the skew, with timestamps shifted
-			pts += int64(o.AudioSkew) * 44100 / int64(time.Second)
+			pts += int64(o.AudioSkew) * arate / int64(time.Second)
 			evs = append(evs, ev{t, UnitSpec{Track: ai, PTS: pts, IDR: true, Size: o.AudioSize}})
 		}
 	}
